@@ -162,3 +162,90 @@ def tree_listing(root):
         for f in fn:
             out.append(os.path.relpath(os.path.join(dp, f), root))
     return sorted(out)
+
+
+def pass_objects(f):
+    """what exp2cxx's pass logic (multpass.c) looks at, for the Lean model `GenFiles.Pass.printFile`:
+    [(schema name, [driver lines])] in textual order.  Names are qualified `schema.name`.
+      pobj T|E|S <key> <qname> <isEnum> <isSelect> <renameOf|-> <items|-> <entAttrTypes|-> <descendants|-> <supers|->
+    items: enumeration/select types reached as select item / attribute type, looking through ONE aggregate level (checkItem)."""
+    from vlib import schema_gen as SG
+    AGGK = set(SG.AGG.values())
+    def q(d):
+        return f"{d.schema.name}.{d.name}"
+    def target(tx):
+        """the type checkItem ends up looking at for a type expression"""
+        if isinstance(tx, SG.TAgg):
+            b = tx.base
+            return b.decl if isinstance(b, SG.TRef) else None
+        if isinstance(tx, SG.TRef):
+            d = tx.decl
+            if isinstance(d, SG.TypeDecl) and d.kind in AGGK:
+                b = d.root.body.base
+                return b.decl if isinstance(b, SG.TRef) else None
+            return d
+        return None
+    def es(d):
+        return isinstance(d, SG.TypeDecl) and d.kind in ("enumeration_", "select_")
+    def localise(d, s):
+        if d is not None and d.schema is not s:
+            for x in s.decls:
+                if isinstance(x, (SG.TypeDecl, SG.EntityDecl)) and x.name == d.name:
+                    return x
+        return d
+    subs = {}
+    for s in f.schemas:
+        for e in s.entities():
+            for sup in e.supers:
+                subs.setdefault(id(sup), []).append(e)
+    def descendants(e, seen=None):
+        seen = seen if seen is not None else []
+        for c in subs.get(id(e), []):
+            if c not in seen:
+                seen.append(c); descendants(c, seen)
+        return seen
+    out = []
+    for s in f.schemas:
+        lines, stubs = [], {}
+        local = {x.name: x for x in s.decls if isinstance(x, (SG.TypeDecl, SG.EntityDecl))}
+        def ref(d):
+            # a name that is both taken from another schema and declared locally resolves to the local declaration
+            if d.schema is not s and d.name in local:
+                d = local[d.name]
+            if d.schema is not s:
+                stubs[q(d)] = d
+            return q(d)
+        for d in s.decls:
+            if isinstance(d, SG.TypeDecl):
+                k = d.kind
+                ise, iss = int(k == "enumeration_"), int(k == "select_")
+                ren = ref(d.root) if (d.has_head and (ise or iss)) else "-"
+                items, eattrs = [], []
+                if iss:
+                    for it in d.root.items:
+                        dd = it.decl
+                        if isinstance(dd, SG.EntityDecl):
+                            for a in dd.all_attrs():
+                                t = localise(target(a.type), dd.schema)
+                                if es(t):
+                                    eattrs.append(ref(t))
+                        else:
+                            t = localise(target(it), s)
+                            if es(t):
+                                items.append(ref(t))
+                lines.append(f"pobj T {d.name} {q(d)} {ise} {iss} {ren} {','.join(items) or '-'} {','.join(eattrs) or '-'} - -")
+            elif isinstance(d, SG.EntityDecl):
+                items = []
+                for a in d.attrs:
+                    t = localise(target(a.type), s)
+                    if es(t):
+                        items.append(ref(t))
+                sup = [ref(x) for x in d.supers]
+                des = [q(x) for x in descendants(d)]
+                lines.append(f"pobj E {d.name} {q(d)} 0 0 - {','.join(items) or '-'} - {','.join(des) or '-'} {','.join(sup) or '-'}")
+        for qn, d in stubs.items():
+            ise = int(isinstance(d, SG.TypeDecl) and d.kind == "enumeration_")
+            iss = int(isinstance(d, SG.TypeDecl) and d.kind == "select_")
+            lines.append(f"pobj S {d.name} {qn} {ise} {iss} - - - - -")
+        out.append((s.name, lines))
+    return out
